@@ -59,10 +59,10 @@ type Term struct {
 }
 
 type TermTable struct {
-	tab   map[string]*Term
-	next  int
-	Vars  []*Term
-	varBy map[string]*Term
+	tab    map[string]*Term
+	next   int
+	Vars   []*Term
+	varBy  map[string]*Term
 	fpMemo map[*Term]bool
 	bMemo  map[*Term]float64
 }
